@@ -59,6 +59,14 @@ def system(tag, seed, fresh=False):
         U = R.generic_unitary(d, seed, salt=6)
         rot = [U @ h @ U.conj().T for h in R.hermitian_basis_ref(d)]
         t.append(("rotated", mb.MatrixBasis(rot), np.array(rot)))
+    # the same kinds of target handed over as SparseMatrixBasis objects (what CompositeSystem.basis() of another system returns)
+    if d <= 4:
+        cb = F.comp_basis_ref(d, "row_major")
+        t.append(("sparse_comp_row_major", mb.SparseMatrixBasis([np.array(x) for x in cb]), np.array(cb)))
+        t.append(("sparse_rotated", mb.SparseMatrixBasis([np.array(x) for x in rot]), np.array(rot)))
+        if alts:
+            nm0, obj0 = alts[-1]
+            t.append(("sparse_" + nm0, mb.SparseMatrixBasis([np.array(x) for x in R.basis_mats(obj0)]), np.array(R.basis_mats(obj0))))
     s.targets = t
     if not fresh:
         _SYS[key] = s
